@@ -18,7 +18,7 @@ config present/missing, any onInit/onStart results) whose modules have distinct 
 which is as constructed (all `kNone`); every list `cs` of root calls (initialize/start/stop/
 cleanup in any order and multiplicity, and changes of any module's fault flags between calls).
 -/
-import TboxModel.C11.Final
+import TboxModel.C11.Iso
 namespace Tbox.C11
 
 /-- the whole history of the property: root calls, then `cleanup()`, then `~Module()` -/
@@ -160,17 +160,132 @@ theorem C11_start_counterexample_unrepaired :
   simp [cexTree2, initM, initKids, start, startKids, cleanup, cleanupKids, stop, stopKids, Mod.kids, Mod.info,
     hookRun, hookStep, Ev.id, setSt]
 
-/-! ### stated, not proved in this round
+/-! ### C11_preorder — parent before children, children in registration order -/
 
--- OPEN  C11_preorder: for every call, the ids on which `onInit` (`onStart`) is invoked form a
---       sublist of `t.ids` (pre-order: parent before children, children in registration order):
---       `((initM true t).2.2.filterMap initId).Sublist t.ids`.  Implied for the SUCCESSFUL hooks by
---       `C11_reverse` (the stack after the call is the reverse pre-order of the initialised modules and
---       pushes happen in trace order); not yet proved for hooks that returned failure.
--- OPEN  C11_optional_isolated: replacing an optional child subtree by any other subtree leaves the
---       return values and the hook trace restricted to the other modules unchanged.  Covered by the
---       differential tie only (tags `init-ok-optfail` / `start-ok-optfail`).
--/
+/-- In the trace of ONE `initialize()` (on any tree, in any state) the modules whose `onInit` ran —
+whether it returned success or failure — appear in the pre-order of the tree (`t.ids`: a module,
+then its children in registration order, each with its whole subtree) restricted to the modules
+that were reached: a sublist of `t.ids`.  With distinct ids this says: a parent's `onInit` runs
+before any of its descendants', a child's whole subtree before the next registered child's. -/
+theorem C11_preorder (t : Mod) : (initIds (initM true t).2.2).Sublist t.ids ∧
+    (startIds (start true t).2.2).Sublist t.ids :=
+  ⟨init_preorder t, start_preorder t⟩
+
+/-- the same inside any call sequence: every `initialize()` / `start()` call of the sequence runs
+its `onInit` / `onStart` hooks in pre-order of the (unchanging) tree -/
+theorem C11_preorder_in_sequence (t : Mod) (hid : t.ids.Nodup) (cs : List Call) :
+    let t' := (runCalls true t cs).1
+    (initIds (call true t' .init).2.2).Sublist t.ids ∧ (startIds (call true t' .start).2.2).Sublist t.ids := by
+  have h := (runCalls_ok t cs hid).ids
+  exact ⟨h ▸ init_preorder _, h ▸ start_preorder _⟩
+
+/-- when nothing fails the order is exactly the pre-order (non-vacuity of the sublist statement) -/
+example : initIds (initM true cexTree2).2.2 = cexTree2.ids ∧
+    startIds (start true (initM true (cexTree2.setFlags 2 true true true)).1).2.2 = cexTree2.ids := by
+  simp [cexTree2, Mod.setFlags, Kids.setFlags, initM, initKids, start, startKids, initIds, startIds, Mod.ids, Kids.ids, setSt]
+
+/-- a failing `onInit` is part of the order too: 0, 1, then the failing 2 -/
+example : initIds (initM true cexTree).2.2 = [0, 1, 2] := by
+  simp [cexTree, initM, initKids, cleanup, cleanupKids, stop, Mod.kids, Mod.info, initIds, setSt]
+
+/-! ### C11_optional_isolated -/
+
+/-- Let `t` and `t'` be equal except that optional child subtrees may have been replaced by ANY
+other subtrees (other shape, other fault flags — in particular the same subtree with its fault
+flags flipped —, other states), and let `p` select "the other modules" (none of the replaced or
+replacing ones).  Then for every sequence of root calls: every call returns the same value on both
+trees, the hook traces projected onto the other modules are equal, and the final trees are again
+equal outside those optional subtrees (same `state_`, flags and shape for all other modules).
+So a failing optional module never changes what is run on, returned to, or reached by its
+siblings and ancestors. -/
+theorem C11_optional_isolated (p : Nat → Bool) (t t' : Mod) (h : t.simP p t') (cs : List Call) :
+    rets true t cs = rets true t' cs ∧
+    proj p (runCalls true t cs).2 = proj p (runCalls true t' cs).2 ∧
+    (runCalls true t cs).1.simP p (runCalls true t' cs).1 :=
+  runCalls_iso p t t' h cs
+
+/-- in particular the root reaches the same `state_` -/
+theorem C11_optional_isolated_root (p : Nat → Bool) (t t' : Mod) (h : t.simP p t') (cs : List Call) :
+    (runCalls true t cs).1.st = (runCalls true t' cs).1.st := by
+  have := (runCalls_iso p t t' h cs).2.2
+  cases h1 : (runCalls true t cs).1 with
+  | node i ks =>
+  cases h2 : (runCalls true t' cs).1 with
+  | node i' ks' =>
+    rw [h1, h2] at this
+    exact congrArg Info.st (simP_node.1 this).1
+
+/-- root 0 with required child 1 and OPTIONAL child 2 that has a child 3 -/
+def optTree (i2 s2 i3 s3 : Bool) : Mod :=
+  .node ⟨0, true, true, true, true, .none⟩
+    (.cons (.node ⟨1, true, true, true, true, .none⟩ .nil) true
+    (.cons (.node ⟨2, true, true, i2, s2, .none⟩ (.cons (.node ⟨3, false, true, i3, s3, .none⟩ .nil) true .nil)) false .nil))
+
+/-- non-vacuity: the hypothesis holds for any two fault assignments of the optional subtree, with
+`p` = modules 0 and 1 … -/
+example (a b c d a' b' c' d' : Bool) : (optTree a b c d).simP (fun n => n < 2) (optTree a' b' c' d') := by
+  simp [optTree, Mod.simP, Kids.simP, Mod.ids, Kids.ids]
+
+/-- … and for replacing the optional subtree by a single different module -/
+example : (optTree true true false true).simP (fun n => n < 2)
+    (.node ⟨0, true, true, true, true, .none⟩
+      (.cons (.node ⟨1, true, true, true, true, .none⟩ .nil) true
+      (.cons (.node ⟨7, false, false, false, false, .none⟩ .nil) false .nil))) := by
+  simp [optTree, Mod.simP, Kids.simP, Mod.ids, Kids.ids]
+
+/-- concrete instance: whether the optional subtree works or fails, 0 and 1 see the same hooks -/
+example : proj (fun n => n < 2) (runCalls true (optTree true true false true) [.init, .start, .stop, .cleanup]).2 =
+    [.init 0 true, .init 1 true, .start 0 true, .start 1 true, .stop 1, .stop 0, .cleanup 1, .cleanup 0] := by
+  simp [optTree, runCalls, call, initM, initKids, start, startKids, cleanup, cleanupKids, stop, stopKids,
+    Mod.kids, Mod.info, proj, Ev.id, setSt]
+
+/-- the REQUIRED flag matters: the same replacement under a required child is not isolated
+(the root fails to initialise when required child 2 does) -/
+theorem C11_required_not_isolated :
+    (initM true cexTree).2.1 = false ∧ (initM true (cexTree.setFlags 2 true true true)).2.1 = true := by
+  simp [cexTree, Mod.setFlags, Kids.setFlags, initM, initKids, cleanup, cleanupKids, stop, Mod.kids, Mod.info, setSt]
+
+/-! ### Main() sequencing (run_in_frontend.cpp / run_in_backend.cpp) -/
+
+theorem cleanup_of_allNone (m : Mod) (h : m.allNone = true) : cleanup true m = (m, []) := by
+  cases m with
+  | node i ks => rw [cleanup]; simp [((allNone_node i ks).1 h).1]
+
+/-- what `Main()` does with the Apps tree is one of the histories of `C11_balanced`: some root
+calls, then `cleanup()`, then `~Module()` — also on the "Apps init fail" path, where `Main()` does
+NOT call `cleanup()`: after a failed `initialize()` of the repaired code the tree is all `kNone`,
+so the missing call would have run nothing. -/
+theorem C11_main_is_history (ctxInit ctxStart : Bool) (t : Mod) (hf : t.allNone = true) :
+    mainTrace true ctxInit ctxStart t = history t (mainCalls true ctxInit ctxStart t) := by
+  unfold mainTrace mainCalls
+  cases ctxInit
+  · simp [history, runCalls, cleanup_of_allNone t hf]
+  · simp only [Bool.not_true, Bool.false_eq_true, if_false]
+    cases hi : (initM true t).2.1
+    · have := (init_fresh t hf).2.2 hi
+      simp [history, runCalls, call, cleanup_of_allNone _ this]
+    · cases ctxStart
+      · simp [history, runCalls, call]
+      · cases hs : (start true (initM true t).1).2.1 <;> simp [history, runCalls, call]
+
+/-- every successful `onInit` / `onStart` is balanced by the time `Main()` returns, whatever
+`ContextImp::initialize()/start()` return and whichever module fails: each module's hooks are a
+closed walk of its automaton, the counts match, and the whole trace is LIFO-nested. -/
+theorem C11_main_balanced (ctxInit ctxStart : Bool) (t : Mod) (hf : t.allNone = true) (hid : t.ids.Nodup) :
+    (∀ n, hookRun n .none (mainTrace true ctxInit ctxStart t) = some .none) ∧
+    (∀ n, (mainTrace true ctxInit ctxStart t).count (Ev.init n true) = (mainTrace true ctxInit ctxStart t).count (Ev.cleanup n) ∧
+          (mainTrace true ctxInit ctxStart t).count (Ev.start n true) = (mainTrace true ctxInit ctxStart t).count (Ev.stop n)) ∧
+    stackRun ([], []) (mainTrace true ctxInit ctxStart t) = some ([], []) := by
+  rw [C11_main_is_history ctxInit ctxStart t hf]
+  exact ⟨(C11_balanced t hf hid _).1, fun n => C11_balanced_counts t hf hid _ n, C11_reverse_closed t hf _⟩
+
+/-- before the patch `Main()` itself was unbalanced on the "Apps init fail" path -/
+theorem C11_main_counterexample_unrepaired :
+    mainTrace false true true cexTree = [.init 0 true, .init 1 true, .init 2 false] := by
+  simp [mainTrace, cexTree, initM, initKids, cleanup, cleanupKids, stop, destroy, destroyKids, Mod.kids, Mod.info, setSt]
+
+example : mainTrace true true true cexTree = [.init 0 true, .init 1 true, .init 2 false, .cleanup 1, .cleanup 0] := by
+  simp [mainTrace, cexTree, initM, initKids, cleanup, cleanupKids, stop, destroy, destroyKids, Mod.kids, Mod.info, setSt]
 
 /-! ### remarks -/
 
